@@ -46,7 +46,28 @@ struct Plan {
     unsubscribe_at_end: bool,
 }
 
+/// one run in eight: a burst of one set per key over several hundred distinct keys inside one (long)
+/// aggregation interval and one pdelete of all of them - batches far larger than any other run's
+fn wide_plan(run: usize, rng: &mut Rng) -> Plan {
+    let keys = rng.range(260, 700);
+    let sets: Vec<WOp> = (0..keys).map(|k| WOp::Set(k, k as u64 + 1)).collect();
+    let mut bursts = vec![Burst { pause_before_us: 0, ops: sets, barrier: true }];
+    bursts.push(Burst { pause_before_us: rng.below(3000) as u64, ops: vec![WOp::PDelete], barrier: true });
+    Plan {
+        run,
+        interval_ms: *rng.pick(&[40u64, 100, 250]),
+        unique: rng.chance(1, 3),
+        live_only: true,
+        prepopulate: vec![],
+        bursts,
+        unsubscribe_at_end: rng.chance(1, 2),
+    }
+}
+
 fn plan(run: usize, rng: &mut Rng) -> Plan {
+    if rng.chance(1, 8) {
+        return wide_plan(run, rng);
+    }
     let interval_ms = *rng.pick(&[3u64, 5, 10, 20, 40]);
     let keys = if rng.chance(1, 3) { rng.range(5, 8) } else { rng.range(1, 4) };
     let mut next_val = 1u64;
@@ -148,6 +169,7 @@ struct SubState {
     plain: Seqs,
     agg_batches: u64,
     agg_multi: u64,
+    agg_wide: u64,
     agg_events: u64,
     plain_events: u64,
     agg_raw: Vec<String>,
@@ -174,6 +196,9 @@ fn file(st: &mut SubState, msg: &Value) -> Result<(), String> {
             st.agg_events += list.len() as u64;
             if list.len() > 1 {
                 st.agg_multi += 1;
+            }
+            if list.len() > 256 {
+                st.agg_wide += 1;
             }
             (&mut st.agg, &mut st.agg_raw)
         }
@@ -259,6 +284,7 @@ async fn one_run(socket: &Path, p: &Plan) -> RunResult {
         agg: Seqs::new(),
         plain: Seqs::new(),
         agg_batches: 0,
+        agg_wide: 0,
         agg_multi: 0,
         agg_events: 0,
         plain_events: 0,
@@ -382,6 +408,7 @@ async fn one_run(socket: &Path, p: &Plan) -> RunResult {
     res.counters.insert("a_barriers_compared", barriers);
     res.counters.insert("a_aggregated_batches", st.agg_batches);
     res.counters.insert("a_aggregated_batches_with_2_or_more_events", st.agg_multi);
+    res.counters.insert("a_aggregated_batches_with_more_than_256_events", st.agg_wide);
     res.counters.insert("a_events_on_aggregated_subscription", st.agg_events);
     res.counters.insert("a_events_on_plain_subscription", st.plain_events);
     res.counters.insert(
